@@ -62,7 +62,7 @@ func plan(tier string) tierPlan {
 		return tierPlan{nG: 110 * 3, nM: 400000, nI: 50000, nW: 64, nChunk: 3}
 	}
 	// G: k = 1..20, each with n = 0..6
-	return tierPlan{nG: 20, nM: 1200, nI: 300, nW: 2, nChunk: 1}
+	return tierPlan{nG: 20, nM: 4800, nI: 1200, nW: 2, nChunk: 1}
 }
 
 func cases(tier string) int {
